@@ -38,6 +38,7 @@ rev('C07', 'revert_9f75569_Referencefeatures_handles_unnamed_features_of_the_ref
 rev('C17', 'revert_22c321d_keep_the_lateststrategy_refresher_alive_when_a_refresh.diff', 'Latest refresher dies')
 rev('C14', 'revert_4843bf6_selfjoin_alias_filter.diff', 'row filter inherited by aliased scan')
 rev('C14', 'revert_inner_over_outer.diff', 'inner join condition factor below a nested outer join')
+rev('C06', 'revert_generate_feature_cache.diff', 'generate_feature memoised across contexts')
 rev('C08', 'revert_7596ab3_compound_kind_pickling.diff', 'compound kinds without __getnewargs__')
 
 COMPILER = 'forml/flow/_code/compiler.py'
